@@ -91,6 +91,11 @@ class SortableDict(col.MutableMapping):
             if index is not None:
                 # We are re-locating.
                 del self[key]
+                if (pos_key is not None) and (pos_key != key):
+                    # Removing the key may have shifted pos_key along.
+                    index = self.index(pos_key)
+                    if after:
+                        index += 1
             else:
                 # We are updating
                 self._values[key] = value
